@@ -44,6 +44,7 @@ struct Constraint
     z3::expr e;
     std::vector<int> syms;
     bool linear;
+    int kind;  // 0 branch / assumption, 1 definedness (divisor != 0, radicand >= 0), 2 definition of a sqrt symbol
 };
 
 struct ObRec
@@ -99,6 +100,7 @@ std::map<std::string, double> g_model;
 std::string g_tmpdir;
 std::unordered_map<std::string, std::pair<std::string, std::string>> g_query_cache;  // text -> (verdict, model)
 bool g_verbose = false;
+std::string g_taint_prefix, g_taint_name;
 
 double now()
 {
@@ -377,9 +379,9 @@ int uf_find(int x)
     return x;
 }
 
-void add_constraint(const z3::expr& e)
+void add_constraint(const z3::expr& e, int kind = 0)
 {
-    Constraint c{e, syms_of(e), is_linear(e)};
+    Constraint c{e, syms_of(e), is_linear(e), kind};
     for (size_t i = 1; i < c.syms.size(); i++)
     {
         int a = uf_find(c.syms[0]), b = uf_find(c.syms[i]);
@@ -1039,7 +1041,7 @@ static void definedness_nonzero(const Real& b, const char* kind)
     }
     else
         P->n_assumed_def++;
-    add_constraint(!z);
+    add_constraint(!z, 1);
 }
 
 Real operator/(const Real& a, const Real& b)
@@ -1254,7 +1256,7 @@ Real sqrt(const Real& a)
         else
             P->n_assumed_def++;
         if (need_assume)
-            add_constraint(!neg);
+            add_constraint(!neg, 1);
     }
     std::string nm = "sqrt!" + std::to_string(P->sqrt_memo.size());
     z3::expr sx = ctx().real_const(nm.c_str());
@@ -1264,8 +1266,8 @@ Real sqrt(const Real& a)
     P->sym_index[Z3_get_ast_id(ctx(), sx)] = si;
     P->uf.push_back(si);
     Real r = mk(sx, NONNEG | (s & NONZERO));
-    add_constraint(sx >= ctx().real_val(0));
-    add_constraint(sx * sx == a.term());
+    add_constraint(sx >= ctx().real_val(0), 2);
+    add_constraint(sx * sx == a.term(), 2);
     P->sqrt_memo[aid] = r.id;
     return r;
 }
@@ -1401,6 +1403,15 @@ bool decide(const z3::expr& cond)
         return false;
     if (g_concrete)
         throw Unsupported("symbolic decision in concrete mode");
+    if (!g_taint_prefix.empty())
+    {
+        for (int si : syms_of(c))
+            if (P->sym_names[si].compare(0, g_taint_prefix.size(), g_taint_prefix) == 0)
+            {
+                fail(g_taint_name, "a branch condition depends on " + P->sym_names[si]);
+                throw PathCut("tainted branch");
+            }
+    }
     size_t n = P->decisions.size();
     if ((int) n >= g_max_decisions)
         throw PathCut("decision bound " + std::to_string(g_max_decisions) + " reached");
@@ -1567,6 +1578,32 @@ bool check_eq(const std::string& name, const Real& a, const Real& b)
     return check(name, eq(a, b));
 }
 
+// equality that is expected to hold as an identity of rational functions: first decided without the branch conditions of
+// the path (only divisor / radicand / sqrt-definition constraints); falls back to the full path condition otherwise
+bool check_identity(const std::string& name, const Real& a, const Real& b)
+{
+    if (g_concrete || (!a.id && !b.id))
+        return check_eq(name, a, b);
+    z3::expr p = eq(a, b).simplify();
+    if (p.is_true())
+        return check(name, p);
+    std::vector<z3::expr> cons;
+    std::set<int> roots;
+    for (int s : syms_of(p))
+        roots.insert(uf_find(s));
+    for (const Constraint& c : P->pc)
+        if (c.kind != 0 && !c.syms.empty() && roots.count(uf_find(c.syms[0])))
+            cons.push_back(c.e);
+    cons.push_back(!p);
+    SolveResult r = solve(cons, false);
+    if (r.verdict == "unsat")
+    {
+        r.solver += "(identity)";
+        return record_ob(name, r);
+    }
+    return check(name, p);
+}
+
 bool check_close(const std::string& name, const Real& a, const Real& b, double rel, double floor_abs)
 {
     if (g_concrete)
@@ -1649,6 +1686,11 @@ void witness(const std::string& label)
 }
 void note(const std::string& key, const std::string& value) { P->notes.push_back({key, value}); }
 void cut(const std::string& why) { throw PathCut(why); }
+void set_taint_prefix(const std::string& prefix, const std::string& name)
+{
+    g_taint_prefix = prefix;
+    g_taint_name = name;
+}
 std::vector<std::string> symbols_of(const Real& a)
 {
     std::vector<std::string> r;
@@ -1688,6 +1730,7 @@ std::vector<std::string> run_path(const Case& cs, const std::string& prefix)
     st.sq_of.push_back(0);
     st.prefix = prefix;
     g_scope.clear();
+    g_taint_prefix.clear();
     g_def = Def::Check;
     std::string outcome = "completed";
     double t0 = now();
